@@ -19,12 +19,12 @@ ID = "C19"
 LEVEL = "fault_enumeration"
 COUNTS = {"quick": 600, "thorough": 40000}
 RULE = ("each run = one fresh import of the library under one of the 4 presence combinations of the sgio/iscsi bindings (absence is the "
-        "injected fault), then: import of every module under pyscsi, construct+encode+decode of every command class, facade calls over "
+        "injected fault), from the source tree or from the layout `packages = find:` installs, then: import of every module under pyscsi, construct+encode+decode of every command class, facade calls over "
         "plain recording device objects (block, tape, MMC, changer types; command set per type), and 4-12 init_device / SCSIDevice / ISCSIDevice calls with device strings from the listed families "
-        "plus random strings, read-only/read-write, explicit/default/empty initiator names. Enumerated: 4 combinations x every listed "
+        "plus random strings, read-only/read-write, explicit/default/empty initiator names. Enumerated: 4 combinations x {source, installed layout} x every listed "
         "string x rw x {init_device, constructors} (complete in both tiers). Non-trivial = at least one refusal and (when a binding is "
         "present) one accepted device in the same run; distinct = event digest")
-ENUMERATED_NOTE = "4 binding-presence combinations x 17 device strings x read-only/read-write x {init_device, SCSIDevice, ISCSIDevice} x {default, explicit} initiator name"
+ENUMERATED_NOTE = "4 binding-presence combinations x {source tree, installed layout} x 17 device strings x read-only/read-write x {init_device, SCSIDevice, ISCSIDevice} x {default, explicit} initiator name"
 COMPONENTS = {"real": ["every module under pyscsi (fresh import per run)", "init_device", "SCSIDevice/ISCSIDevice constructors", "all command classes", "SCSI facade"],
               "stubs": ["sgio / iscsi modules (present or absent)", "virtual /dev", "socket.gethostname", "plain recording device"],
               "simulated_peers": ["t10.targets.BlockLU behind the accepted devices"]}
@@ -33,7 +33,7 @@ ASSUMPTIONS = [
     "for a string with the right prefix and the binding present the library may fail with an OS/URL error from the binding (e.g. '/dev/' is a directory, 'iscsi://' has no target); then at most the one open/URL event on exactly that string is allowed",
     "an explicitly empty initiator name is not judged (the library substitutes the URL)",
 ]
-REQUIRED_PROBES = ["open_refused_by_os", "refused_missing_binding", "refused_other_string", "accepted_sgio", "accepted_iscsi", "default_initiator", "all_modules_imported", "facade_plain_family"]
+REQUIRED_PROBES = ["open_refused_by_os", "refused_missing_binding", "refused_other_string", "accepted_sgio", "accepted_iscsi", "default_initiator", "all_modules_imported", "facade_plain_family", "facade_device_error", "facade_with_block", "installed_layout"]
 
 REPO = "/repo"
 STRINGS = ["/dev/sg0", "/dev/sg1", "/dev/", "/dev", "/devx", "/dev/nonexistent", "dev/sg0", " /dev/sg0",
@@ -45,9 +45,65 @@ ISCSI_OK = {"iscsi://10.0.0.1:3260/iqn.2026-10.verif:tgt0/0": ("10.0.0.1:3260", 
 SG_OK = {"/dev/sg0", "/dev/sg1"}
 
 
+SITE = None        # the library as an installation lays it out (see build_installed_layout)
+
+
+def packages_found(root):
+    """what `packages = find:` (setup.cfg) installs: directories with an __init__.py whose parent is the root or a package
+    (setuptools.find_packages semantics), 'tests' excluded as configured"""
+    out = []
+
+    def walk(d, dotted):
+        for name in sorted(os.listdir(d)):
+            sub = os.path.join(d, name)
+            if os.path.isdir(sub) and "." not in name and os.path.isfile(os.path.join(sub, "__init__.py")):
+                pkg = dotted + [name]
+                if pkg[0] != "tests":
+                    out.append(pkg)
+                    walk(sub, pkg)
+    walk(root, [])
+    return out
+
+
+def build_installed_layout(repo):
+    """copy what build_py would install into a scratch site directory (removed when the check process exits)"""
+    import atexit
+    import shutil
+    import tempfile
+    site = tempfile.mkdtemp(prefix="verif_c19_site_")
+    owner = os.getpid()
+
+    def cleanup():
+        if os.getpid() == owner:
+            shutil.rmtree(site, ignore_errors=True)
+    atexit.register(cleanup)
+    for pkg in packages_found(repo):
+        src = os.path.join(repo, *pkg)
+        dst = os.path.join(site, *pkg)
+        os.makedirs(dst, exist_ok=True)
+        for f in sorted(os.listdir(src)):
+            if f.endswith(".py"):
+                shutil.copyfile(os.path.join(src, f), os.path.join(dst, f))
+    return site
+
+
+def source_modules(repo):
+    """every module the source tree holds under pyscsi/ (whether or not its directory is a regular package)"""
+    mods = []
+    base = os.path.join(repo, "pyscsi")
+    for d, dirs, files in os.walk(base):
+        dirs[:] = sorted(x for x in dirs if x != "__pycache__")
+        rel = os.path.relpath(d, repo).split(os.sep)
+        for f in sorted(files):
+            if f.endswith(".py"):
+                mods.append(".".join(rel + ([f[:-3]] if f != "__init__.py" else [])))
+    return sorted(set(mods))
+
+
 def setup(repo):
-    global REPO
+    global REPO, SITE
     REPO = os.path.realpath(repo)
+    SITE = build_installed_layout(REPO)
     # deliberately no import of pyscsi and no seams here: every run starts from an interpreter that never saw the library
 
 
@@ -73,13 +129,15 @@ def gen_devop(rng):
 
 
 def generate(rng, idx, tier):
-    return {"property": ID, "config": {"sgio": rng.random() < 0.5, "iscsi": rng.random() < 0.5, "hostname": rng.choice(["simhost", "node-7", "a.b.c"])},
+    return {"property": ID, "config": {"sgio": rng.random() < 0.5, "iscsi": rng.random() < 0.5, "hostname": rng.choice(["simhost", "node-7", "a.b.c"]),
+                                       # imported from the source tree, or from what `packages = find:` installs
+                                       "layout": rng.choice(["source", "source", "installed"])},
             "ops": [{"op": "import_all"}, {"op": "commands", "seed": rng.randrange(1 << 30)}, {"op": "facade", "seed": rng.randrange(1 << 30)}]
             + [gen_devop(rng) for _ in range(rng.randrange(4, 13))]}
 
 
 def enumerated_count(tier):
-    return 4 * 2 * 3 * 2
+    return 4 * 2 * 3 * 2 * 2
 
 
 def enumerated(k, tier):
@@ -95,7 +153,8 @@ def enumerated(k, tier):
         if explicit:
             op["initiator"] = "iqn.2026-10.verif:explicit"
         ops.append(op)
-    return {"property": ID, "config": {"sgio": bool(combo & 1), "iscsi": bool(combo & 2), "hostname": "simhost"}, "ops": ops}
+    return {"property": ID, "config": {"sgio": bool(combo & 1), "iscsi": bool(combo & 2), "hostname": "simhost",
+                                       "layout": "installed" if (k // 48) % 2 else "source"}, "ops": ops}
 
 
 PINNED_OPS = 0
@@ -111,8 +170,11 @@ def execute(prog):
     miss = "unloadable" if cfg.get("missing_as") == "unloadable" else False
     install(sgio=cfg["sgio"] or miss, iscsi=cfg["iscsi"] or miss, hostname=cfg["hostname"])
     sys.dont_write_bytecode = True
-    if sys.path[0] != REPO:
-        sys.path.insert(0, REPO)
+    ROOT = SITE if cfg.get("layout") == "installed" else REPO      # where this run's library comes from
+    if sys.path[0] != ROOT:
+        sys.path.insert(0, ROOT)
+    if ROOT == SITE:
+        WORLD.probe("installed_layout")
     V = []
     summary = []
 
@@ -134,7 +196,7 @@ def execute(prog):
         try:
             importlib.import_module("pyscsi")
             f = os.path.realpath(sys.modules["pyscsi"].__file__)
-            if not f.startswith(REPO + os.sep):
+            if not f.startswith(ROOT + os.sep):
                 raise RuntimeError("harness: pyscsi imported from %s" % f)
             imported = True
             return True
@@ -150,7 +212,7 @@ def execute(prog):
         if not ensure_import():
             break
         if name == "import_all":
-            mods = sorted(m.name for m in pkgutil.walk_packages([os.path.join(REPO, "pyscsi")], "pyscsi."))
+            mods = source_modules(REPO)      # every module of the source tree must be importable from where the library was installed
             bad = 0
             for m in mods:
                 try:
@@ -200,12 +262,55 @@ def execute(prog):
                 c16.judge_set(pdev, dtype, "plain", V16)
                 for k in range(4):
                     m, args, kw = c16.followups(dtype, op["seed"] + k)
+                    if m.startswith("!"):
+                        continue          # C16's own negative follow-ups
                     getattr(scsi, m)(*args, **kw)
                 WORLD.probe("facade_plain_family")
             except BaseException as e:  # noqa
                 viol("C19.facade", where_cfg, "type=%02x/%s" % (dtype, type(e).__name__), "the facade works over a plain device object of type %#04x" % dtype, repr(e)[:120])
             for v in V16:
                 viol("C19.facade", where_cfg, "type=%02x/%s" % (dtype, v["oracle"]), v["expected"], v["actual"])
+            # ... whose errors are its own: what the device raises from execute() reaches the caller as it is
+            class DeviceError(Exception):
+                pass
+            pdev = PlainDevice(E.spc, T.make_lu(dtype, 0, 11), None)
+            try:
+                scsi = SCSI(pdev, blocksize=512)
+                err = DeviceError("transport failed")
+                pdev.fail_with = err
+                try:
+                    scsi.testunitready()
+                    viol("C19.facade", where_cfg, "device-error/returned", "the device object's own error reaches the caller", "returned normally")
+                except BaseException as e:  # noqa
+                    if e is not err:
+                        viol("C19.facade", where_cfg, "device-error/" + type(e).__name__, "the device object's own error (DeviceError) reaches the caller", repr(e)[:120])
+                    else:
+                        WORLD.probe("facade_device_error")
+                # re-running the detection on the device the facade already holds leaves it usable, and not closed
+                scsi(pdev)
+                scsi.testunitready()
+                if pdev.closes:
+                    viol("C19.facade", where_cfg, "reattach-closed", "s(s.device) does not close the caller's device", "%d close call(s)" % pdev.closes)
+            except BaseException as e:  # noqa
+                viol("C19.facade", where_cfg, "reattach/%s" % type(e).__name__, "the facade works over a plain device object (re-attach, device error)", repr(e)[:120])
+            # ... and as a context manager: an error raised inside the block leaves the block, whatever the device's close() returns
+            for ret in (None, True, 1, "closed"):
+                pdev = PlainDevice(E.spc, T.make_lu(0, 0, 12), None)
+                pdev.close_returns = ret
+                marker = DeviceError("raised inside the with block")
+                try:
+                    with SCSI(pdev, blocksize=512) as s_:
+                        s_.testunitready()
+                        raise marker
+                except BaseException as e:  # noqa
+                    if e is not marker:
+                        viol("C19.facade", where_cfg, "with/%s" % type(e).__name__, "the error raised inside `with SCSI(dev)` leaves the block", repr(e)[:120])
+                    elif pdev.closes != 1:
+                        viol("C19.facade", where_cfg, "with/closes=%d" % pdev.closes, "the device is closed once when the block is left", "%d close calls" % pdev.closes)
+                    else:
+                        WORLD.probe("facade_with_block")
+                else:
+                    viol("C19.facade", where_cfg, "with/swallowed", "the error raised inside `with SCSI(dev)` leaves the block (close() returned %r)" % (ret,), "the with statement ended normally")
             summary.append("facade")
         elif name == "device":
             s, via = op["s"], op["via"]
@@ -278,6 +383,16 @@ def execute(prog):
                                  "%s" % [(e.get("path"), e.get("mode")) for e in opens])
                         else:
                             WORLD.probe("accepted_sgio")
+                            # ... and used as a context manager it is still that one handle, released when the block is left
+                            ev1 = len(WORLD.events)
+                            try:
+                                with val:
+                                    pass
+                            except BaseException as e:  # noqa
+                                viol("C19.open", w, "with/" + type(e).__name__, "`with device:` works on an accepted device", repr(e)[:100])
+                            more = [e for e in WORLD.events[ev1:] if e["kind"] == "vfs.open"]
+                            if more:
+                                viol("C19.open", w, "with/reopened", "one open of %r for one device object" % s, "%d further open(s) on entering the with block" % len(more))
                 elif kind == "ok":
                     viol("C19.phantom-device", w, "sgio", "an OS error: %r does not exist as a device node" % s, "returned a device")
                 summary.append("sgio:%s" % kind)
